@@ -172,7 +172,9 @@ def run(ctx):
                       False,
                       "%d %s where model and implementation differ although the property predicate holds; smallest: %s"
                       % (len(lst), kind, json.dumps(kc[1])[:400]))
-    if ob_failed and not ctx.violations and not ctx.known_hits:
+    # an obligation / the translator / a theorem that no longer checks is reported even when the only other
+    # output is a known finding; when real violations with inputs exist it is added to their notes
+    if ob_failed and not ctx.violations:
         ctx.violation("obligation-unchecked", dict(unchecked=ob_failed), False, ob_failed[0][:400])
     elif ob_failed:
         ctx.notes.append({"unchecked_obligations": ob_failed})
@@ -189,7 +191,7 @@ def run(ctx):
         ctx.log("coqchk:", coqchk)
         if rc != 0 or not m or m.group(1).strip() != "<none>":
             ob_failed.append("coqchk did not confirm the development: rc=%s %s" % (rc, flat[-400:]))
-            if not ctx.violations and not ctx.known_hits:
+            if not ctx.violations:
                 ctx.violation("obligation-unchecked", dict(unchecked=ob_failed), False, ob_failed[-1][:400])
 
     counts = meta.get("counts", {})
